@@ -12,7 +12,7 @@ struct vf_report { int fatal; char const *file; unsigned long line; unsigned mas
 #define VF_MAXNEEDLE 8
 static vf_report   vf_first, vf_last;      // first and most recent violation report
 static unsigned    vf_nreports, vf_nfatal;
-static unsigned    vf_first_cnt[12];       // first report: occurrences per watched string (concrete indices only)
+static unsigned    vf_first_cnt[16];       // first report: occurrences per watched string (concrete indices only)
 static char const *vf_ok_names[4];         // texts the harness wants OK reports classified against
 static unsigned    vf_nok_names;
 static int         vf_ok_last = -2;        // last OK report: index of the registered text it carries, -1 if none of them
